@@ -448,6 +448,14 @@ Definition add_upper (ri : real) (clear : bool) (n : node) : node :=
 Definition mode_of (t : tree) : N :=
   match t with Dir m _ _ => m | File _ m _ _ => m | Lnk _ => 511 | Wh => 0 end.
 
+(* copy-up of a directory (repaired by 61854eb): mkdir(2) keeps the permission bits and the sticky bit only, so when the lower
+   directory has S_ISUID | S_ISGID the new upper directory is chmod-ed to st_mode & 07777 *)
+Definition has_setid (mode : N) : bool := negb (N.land mode 3072 =? 0).          (* 06000 *)
+Definition cu_mode (mode : N) : N := if has_setid mode then N.land mode 4095 else N.land mode 1023.
+Definition ri_mkdir_cu (pr : real) (nm : name) (mode : N) : M real :=
+  ri <- ri_mkdir pr nm mode ;;
+  (if has_setid mode then mutate (r_layer ri) (h_chmod (r_path ri) mode) else ret tt) ;;;
+  ret ri.
 (* OverlayInode::create_upper_dir(ctx, None); fuel = number of ancestors + 1 *)
 Fixpoint create_upper_dir (fuel : nat) (p : path) : M unit :=
   match fuel with
@@ -464,7 +472,7 @@ Fixpoint create_upper_dir (fuel : nat) (p : path) : M unit :=
           (if in_upper pn then ret tt else create_upper_dir f pp) ;;;
           pn' <- get_node pp ;;
           pr <- upper_real pn' EINVAL ;;
-          ri <- ri_mkdir pr nm (mode_of st) ;;
+          ri <- ri_mkdir_cu pr nm (mode_of st) ;;
           mod_node p (add_upper ri false)
       end
   end.
